@@ -500,6 +500,10 @@ def run_property(prop, tier, base, workers=None):
     for k, v in extra.items():
         if k not in ("evaluations", "distinct_nontrivial", "samples"):
             cov[k] = v
+    if reported and status == 2:
+        # a dead or timed-out worker is frequently a consequence of the very defect that was found (runaway growth)
+        print("NOTE: harness errors occurred as well; the confirmed, replayable violation(s) take precedence -> exit 1")
+        status = 1
     ev = {"property_id": prop.ID, "tier": tier, "seed": base, "level": prop.LEVEL,
           "coverage": cov, "assumptions": prop.ASSUMPTIONS, "wall_s": round(wall, 2),
           "violations": len(reported)}
